@@ -29,9 +29,6 @@ is deeper, or equally deep and at least as long -/
 theorem C03_best_rule (r : Info) (b : Info) (ps : Params) :
     better r (some (b, ps)) = (decide (r.depth > b.depth) || (r.depth == b.depth && decide (r.length ≥ b.length))) := rfl
 
-/-- generated obligation: `Node::search` tries the seven kinds in the documented order -/
-theorem C03_kind_order_in_source : Generated.searchKindOrder = [0, 1, 2, 3, 4, 5, 6] := by decide
-
 /-- **On live templates.** The result of every search on a router reached through the API is the documented walk over
 `specRoutes L`, the route list of its live templates: literal text first, then constrained dynamic, dynamic, constrained
 wildcard, wildcard, constrained catch-all, catch-all; alphabetical among siblings; among the values of one parameter the
